@@ -627,6 +627,21 @@ fn adversarial(thorough: bool) -> Vec<Value> {
         out.push(cli_case(&["parse-tree", "-r", "@r.guard"], json!({"r.guard": arr.clone()}), "", "invalid-utf8"));
         out.push(cli_case(&["test", "-r", "@r.guard", "-t", "@t.yaml"], json!({"r.guard": GOOD_RULES, "t.yaml": arr}), "", "invalid-utf8"));
     }
+    // --- every library case of the adversarial classes again through the command line, in the console and the structured
+    //     reporters (the report builders have their own assumptions about what a failing check can hold)
+    let derived: Vec<Value> = out
+        .iter()
+        .filter(|c| c["kind"] == "lib" && matches!(c["class"].as_str().unwrap_or(""), "chained-filters" | "filter-placement" | "function-arguments" | "indices" | "key-interpolation" | "literal-variable" | "operand-shapes" | "parameterised-arity" | "regex"))
+        .cloned()
+        .collect();
+    for c in derived {
+        let class = format!("{}-cli", c["class"].as_str().unwrap_or("?"));
+        for extra in [vec![], vec!["-S", "all", "-v"], vec!["-o", "yaml", "-S", "all"], vec!["--structured", "-o", "json", "-S", "none"], vec!["--structured", "-o", "junit", "-S", "none"], vec!["--structured", "-o", "sarif", "-S", "none"]] {
+            let mut argv = vec!["validate", "-r", "@r.guard", "-d", "@d.json"];
+            argv.extend(extra.iter());
+            out.push(cli_case(&argv, json!({"r.guard": c["rules"], "d.json": c["data"]}), "", &class));
+        }
+    }
     let _ = thorough;
     out
 }
